@@ -277,6 +277,24 @@ func (p *prefix) mk(name string, specs []bspec) *tmpl {
 	return t
 }
 
+// mustBeValid is a vacuity guard for templates whose blocks are all meant to be valid on their own
+// branch (the prefix was once extended with transactions that spent what a template spends, which
+// silently turned two of its blocks into double spends).
+func (p *prefix) mustBeValid(t *tmpl) *tmpl {
+	m := p.model.Clone()
+	for i, b := range t.blocks {
+		n := m.Add(b)
+		if n == nil || !m.Valid(n) {
+			why := "not added (parent unknown: list parents first)"
+			if n != nil {
+				why = m.Why(n)
+			}
+			ev.HarnessError("template %s: block %s is meant to be valid on its branch: %s", t.name, t.names[i], why)
+		}
+	}
+	return t
+}
+
 func templates(p *prefix, thorough bool) []*tmpl {
 	sp := minichain.Spend
 	ops := func(o ...refchain.Outpoint) []refchain.Outpoint { return o }
@@ -285,21 +303,23 @@ func templates(p *prefix, thorough bool) []*tmpl {
 
 	// T1: two branches of depth 3 with spend graphs crossing the fork.
 	{
-		a1 := sp(ops(op(p.M, 0)), outs(o1(4e8), o1(5e8)))
+		// (A1 spends the coinbase of height 5 and the B branch leaves it alone, A3 and B3 spend one each: blocks that spend a coinbase
+		// are disconnected in many orders, and what comes back must again be a coinbase output)
+		a1 := sp(ops(op(p.M, 0), p.cb[5]), outs(o1(4e8), o1(5e8), o1(50e8)))
 		a2 := sp(ops(op(a1.TxID(), 0), op(p.M, 1)), outs(o1(14e8)))
-		a3 := sp(ops(p.cb[3]), outs(o1(50e8)))
+		a3 := sp(ops(p.cb[6]), outs(o1(50e8)))
 		b1 := sp(ops(op(p.M, 0)), outs(o1(9e8)))
 		b2 := sp(ops(op(p.M, 2), op(b1.TxID(), 0)), outs(o1(1e8), o1(2e8), o1(3e8)))
-		x := sp(ops(p.cb[4]), outs(o1(20e8), o1(30e8)))
+		x := sp(ops(p.cb[7]), outs(o1(20e8), o1(30e8)))
 		y := sp(ops(op(x.TxID(), 0)), outs(o1(19e8)))
-		ts = append(ts, p.mk("two-branches-cross-spends", []bspec{
+		ts = append(ts, p.mustBeValid(p.mk("two-branches-cross-spends", []bspec{
 			{name: "A1", parent: "P", tag: 1, txs: []*reftx.Tx{a1}, fees: 1e8},
 			{name: "A2", parent: "A1", tag: 1, txs: []*reftx.Tx{a2}},
 			{name: "A3", parent: "A2", tag: 1, txs: []*reftx.Tx{a3}},
 			{name: "B1", parent: "P", tag: 2, txs: []*reftx.Tx{b1}, fees: 1e8},
 			{name: "B2", parent: "B1", tag: 2, txs: []*reftx.Tx{b2}, fees: 13e8},
 			{name: "B3", parent: "B2", tag: 2, txs: []*reftx.Tx{x, y}, fees: 1e8},
-		}))
+		})))
 	}
 	// T2: three-way fork with ties; C3 double-spends what C1 spent (invalid only on connect).
 	{
